@@ -44,7 +44,7 @@ def cases(draw, max_chroms=3, max_bins=6):
             "chunksize": draw(st.sampled_from([1, 2, 3, 7, max(1, nnz), 10**6])),
             "nproc": draw(st.sampled_from([1] * 9 + [2, 3])),
             "cols": draw(st.sampled_from([None, None, ["count"], ["count", "x"]])),
-            "agg_count": draw(st.sampled_from(["sum", "sum", "sum", "max"])),
+            "agg_count": draw(st.sampled_from(["sum", "sum", "sum", "max"])), "agg_x": draw(st.sampled_from(["sum", "sum", "max"])),
             "history": hist, "k2": draw(st.integers(2, 4)), "rows2": rows2, "count_float": count_float,
             # reuse-uri: the SAME source URI is coarsened, re-created with another bin table and other pixels, and coarsened again
             "bt2": draw(gen.bin_tables(max_chroms=max_chroms, max_bins=max_bins)) if hist == "reuse-uri" else None,
@@ -71,7 +71,8 @@ def check_coarsen(case, ctx: Ctx):
 
     bt, rows, symmetric, k = case["bt"], case["rows"], case["symmetric"], case["k"]
     cols = case["cols"] or ["count"]
-    aggs = tuple({"count": case["agg_count"], "x": "sum"}[c] for c in cols)
+    aggd = {"count": case["agg_count"], "x": case.get("agg_x", "sum")}
+    aggs = tuple(aggd[c] for c in cols)
     work = ctx.tmpdir()
     try:
         base = os.path.join(work, "base.cool")
@@ -86,15 +87,17 @@ def check_coarsen(case, ctx: Ctx):
             kw["columns"] = list(case["cols"])
         if case["agg_count"] != "sum":
             kw["agg"] = {"count": case["agg_count"]}
+        if "x" in cols and aggd["x"] != "sum":
+            kw.setdefault("agg", {})["x"] = aggd["x"]
         if case.get("via") == "cli":
             from ..cliutil import run_cli
 
             args = ["coarsen", base, "-k", k, "-c", case["chunksize"], "-n", case["nproc"], "-o", out_uri]
             if case["dest"] == "same-file":
                 args.append("-a")
-            if case["cols"] is not None or case["agg_count"] != "sum":
+            if case["cols"] is not None or any(aggd[c] != "sum" for c in cols):
                 for c in cols:
-                    a = {"count": case["agg_count"], "x": "sum"}[c]
+                    a = aggd[c]
                     args += ["--field", c + (f":agg={a}" if a != "sum" else "")]
             rc, _, exc = run_cli(args)
             check(rc == 0 and exc is None, f"cooler coarsen {args[2:]} failed: exit {rc} {exc!r}")
@@ -141,7 +144,7 @@ def check_coarsen(case, ctx: Ctx):
             want_b = model.coarsen_rows(bt2, _proj(rows_b, cols), k, symmetric, aggs)
             got_b = _read(c2, cols)
             check(got_b == want_b, lambda: f"second coarsening of the re-created source URI differs: got {got_b[:6]} want {want_b[:6]}")
-        if case["history"] == "chain" and case["agg_count"] == "sum":
+        if case["history"] == "chain" and case["agg_count"] == "sum" and aggd["x"] == "sum":
             k2 = case["k2"]
             o2 = os.path.join(work, "chain.cool")
             call("coarsen_cooler second step", cooler.coarsen_cooler, out_uri, o2, k2, case["chunksize"], **kw)
@@ -153,7 +156,7 @@ def check_coarsen(case, ctx: Ctx):
             check(_read(b, cols) == want2, "direct coarsening by k1*k2 differs from the model")
             check(model.read_bins(a) == model.read_bins(b) and _read(a, cols) == _read(b, cols),
                   f"coarsen({k}) then coarsen({k2}) differs from coarsen({k * k2})")
-        if case["history"] == "merge-commute" and case["agg_count"] == "sum":
+        if case["history"] == "merge-commute" and case["agg_count"] == "sum" and aggd["x"] == "sum":
             other = os.path.join(work, "other.cool")
             call("create other", create_from_model, other, bt, case["rows2"], symmetric, cols=("count", "x"), h5opts={"compression": None})
             merged = os.path.join(work, "merged.cool")
